@@ -373,6 +373,23 @@ def replay_case(arg):
         except Exception as e:
             fail('Evaluable', type(e).__name__, dict(op='buffer refill', error=repr(e)))
         x_in[...] = x
+    # ---- representation: a whole-number point handed over as an INTEGER array scores like the same point as floats ------
+    if not fails and n > 0:
+        xi = np.array([1 + (k_ % 2) if rec['layout'][k_][0] != 'beta' else (k_ % 2) for k_ in range(n)], dtype=int)
+        try:
+            with warnings.catch_warnings():
+                warnings.simplefilter('ignore')
+                vf, vi = float(hll(xi.astype(float))), float(hll(xi.copy()))
+                sf, gf = hll.evaluateS1(xi.astype(float))
+                si, gi = hll.evaluateS1(xi.copy())
+            cnt['evaluations'] = cnt.get('evaluations', 0) + 4
+            same = (np.isfinite(vf) == np.isfinite(vi)) and (not np.isfinite(vf) or (
+                interp.close(vf, vi) and interp.close(float(sf), float(si)) and
+                interp.close(np.asarray(gf, dtype=float), np.asarray(gi, dtype=float), rtol=1e-9, atol=1e-9)))
+            if not same:
+                fail('Denotation', 'integer_vector_scores_differently', dict(float=[vf, float(sf)], int=[vi, float(si)], x=xi.tolist()))
+        except Exception as e:
+            fail('Evaluable', type(e).__name__, dict(op='integer vector', error=repr(e)))
     # ---- outside the support: plain evaluation and evaluation with sensitivities agree on finiteness -----------
     # (C03, last sentence).  One slot at a time is set to zero or to a negative number -- a scale of the error model or
     # of a population sub-model, an individual parameter of a log-normal / truncated Gaussian dimension, or a harmless
